@@ -48,3 +48,13 @@ def run(ck):
                       "distinct_nontrivial counts histories and tear forks, each validated event by event by TLC")
     ck.assumptions += ["fsync makes acknowledged bytes durable (the driver cannot observe a lost fsync)",
                        "a crash leaves a byte prefix of the record being written"]
+
+MANIFEST = dict(
+    text=("TLC exhaustively checks the C11 clauses (durable, no phantom, per-file order, purge safe/complete) on WAL.tla for all interleavings of "
+          "<=4-5 appends x 3 epochs x 2 sizes, rotate/close, purge, crash between calls, crash inside an append (torn/whole), reopen; "
+          "the same clauses are then evaluated by TLC in every state of recorded executions of the real WriteAheadLog (random histories incl. >1MiB rotation, "
+          "restart, and the final record cut at every byte offset), the model advancing with the same actions (WALTrace.tla)."),
+    note=("Trusted: TLC, the NDJSON recorder in harness/drivers/wal (no oracle in Go), fsync durability of the OS. "
+          "Bounded: model constants above; real histories are sampled (seeded), tear offsets exhaustive for records <=700 bytes."),
+    technique="TLA+ spec model-checked with TLC + trace validation of the real WAL against the spec",
+    design_ref="DESIGN.md section 6 C11")
